@@ -286,7 +286,7 @@ func c16GapMandatory(a, b c16Tok) bool {
 
 type c16SeqCase struct {
 	Toks   []c16Tok `json:"toks"`
-	Spaces []int    `json:"spaces"` // spaces before token i (and one trailing entry)
+	Spaces []int    `json:"spaces"`          // spaces before token i (and one trailing entry)
 	Blank  string   `json:"blank,omitempty"` // what one "space" is made of (default " "): tab, line end, CRLF
 }
 
